@@ -180,7 +180,7 @@ EXTRA_TEXT = {
     'C07': " Repeated h1 kicks on one state must add up and be undone by the negative total; the system's own h2 must be conserved along h2_flow (evaluated only after the flow ran).", 'C08': ' Constant metrics include every combination of 9 base classes with 13 expression templates (positive multiples, quotients, inverses formed before/after sqrt / eigendecomposition / inverse of the operand were computed).',
     'C09': ' Templates include methods evaluated for the first time on a read-only (optionally pickled) snapshot followed by re-assignment of a writable copy.',
     'C11': ' Gradients are requested in either order, twice, after other lazy attributes; low-rank updates also with a caller-supplied capacitance matrix; dense definite matrices with bare array, caller-supplied lower/upper/inverse-triangular factor, or obtained as the inverse of another dense matrix.',
-    'C12': ' Metropolis transitions must reject (state unchanged) whenever an exception cut the trajectory and never accept an intermediate state.',
+    'C12': ' Metropolis transitions must reject (state unchanged) whenever an exception cut the trajectory and never accept an intermediate state; system.h is hooked during every transition and a NaN/+inf energy read by a dynamic transition after a successful step must leave diverging=True.',
     'C13': ' Configurations with two statistics-bearing transitions declaring the same statistic names are judged row by row per transition; files in a user memmap directory are matched to returned arrays by content (the naming scheme is undocumented).',
     'C15': ' Interrupts are also injected at the same point of EVERY chain with more chains than workers (queued chains never start); memory-map files are matched by content.',
     'C16': ' A third of the stager grid and of the sampler runs use adapters whose is_fast flag is computed (a numpy.bool_ from an array comparison) instead of a bool class attribute.',
